@@ -337,7 +337,9 @@ def r40(ctx: Ctx) -> RuleReport:
             role_names.add(norm(n.targets[0].elts[1]))
     if isinstance(loop.target, ast.Tuple) and len(loop.target.elts) == 3:
         role_names.add(norm(loop.target.elts[1]))
-    calls = [n for n in ast.walk(loop) if isinstance(n, ast.Call) and isinstance(n.func, ast.Attribute) and n.func.attr == 'has_role']
+    calls = [n for n in ast.walk(loop) if isinstance(n, ast.Call) and (
+        (isinstance(n.func, ast.Attribute) and n.func.attr == 'has_role') or
+        (isinstance(n.func, ast.Name) and norm(single_def(ctx, fi, n.func)).endswith('.has_role')))]
     if not calls:
         rep.undecided(f'{fi.fq}: roles are tested with has_role', fi.loc(loop), 'no has_role call in the loop')
     for c in calls:
@@ -355,7 +357,9 @@ def r40(ctx: Ctx) -> RuleReport:
                           f'becomes valid after rewriting (stacked -of, a non-canonical spelling) is no longer reported')
         else:
             rep.undecided(key, fi.loc(c), norm(c))
-    tests = [nd for nd in cfg.nodes if nd.kind == 'cond' and '.has_role(' in norm(nd.ast) and any(x is nd.ast for x in ast.walk(loop))]
+    call_srcs = {norm(c) for c in calls}
+    tests = [nd for nd in cfg.nodes if nd.kind == 'cond' and ('.has_role(' in norm(nd.ast) or any(cs in norm(nd.ast) for cs in call_srcs))
+             and any(x is nd.ast for x in ast.walk(loop))]
     if len(tests) == 1:
         t = tests[0]
         path = cfg.path_avoiding([(head, 'T')], {head, cfg.exit, cfg.rexit}, lambda nd: nd.id == t.id)
@@ -364,7 +368,7 @@ def r40(ctx: Ctx) -> RuleReport:
         apps = [n for n in ast.walk(loop) if isinstance(n, ast.Call) and isinstance(n.func, ast.Attribute) and n.func.attr == 'append'
                 and n.args and try_fold(n.args[0]) == (True, 'invalid role')]
         good = False
-        call_src = norm(next(x for x in ast.walk(t.ast) if isinstance(x, ast.Call) and isinstance(x.func, ast.Attribute) and x.func.attr == 'has_role'))
+        call_src = norm(next(x for x in ast.walk(t.ast) if isinstance(x, ast.Call) and any(x is c for c in calls)))
         for a in apps:
             if (call_src, False) in facts_ex(ctx, fi, a) and tv and norm(a.func.value).endswith(f'[{tv}]'):
                 good = True
